@@ -323,13 +323,13 @@ func errRes(err error) string {
 	return "err"
 }
 
-func connScenario(r *rand.Rand, thorough bool) {
+func connScenario(r *rand.Rand, thorough bool, single bool) {
 	cl, sv := net.Pipe()
 	conn := kafka.NewConnWith(cl, kafka.ConnConfig{ClientID: "c06", Topic: "t", Partition: 0})
 	conn.Seek(0, kafka.SeekAbsolute|kafka.SeekDontCheck)
 	nG := 2 + r.Intn(5)
 	perG := 1 + r.Intn(3)
-	if r.Intn(4) == 0 {
+	if r.Intn(4) == 0 || single {
 		nG, perG = 1, 2+r.Intn(3)
 	}
 	b := &muxBroker{conn: sv, pending: make(chan muxReq, 64), done: make(chan struct{}), r: rand.New(rand.NewSource(r.Int63())),
@@ -559,7 +559,9 @@ func main() {
 				os.Exit(3)
 			}
 		}()
-		connScenario(r, thorough)
+		// the first fifth of the scenarios are single-caller ones (duplicates / foreign frames allowed)
+		connScenario(r, thorough, i < n/5)
+		out.Flush()
 		close(fin)
 	}
 	transportScenarios(r, thorough)
